@@ -256,16 +256,64 @@ func c03Gov(h *History, g *G) []EnvAction {
 		return nil
 	}
 	h.Labels["c03-gov-pool-params-proposals"]++
+	h.Ext["c03-params-proposal"] = [2]uint64{p.PoolId, uint64(len(h.Trace.Blocks) + 3)} // traffic on that pool until it has been executed
 	e := h.W.GovEnv(msg)
 	e.Args["deliver"] = "proposal"
 	return []EnvAction{e}
+}
+
+// c03ExtraOps: while a proposal on a pool's parameters is waiting for its execution, the pool keeps being used: in each
+// of the next blocks somebody joins it with a small amount, somebody else sends an exact-in swap through it, and the
+// feeder reports deep external markets for its assets – so that the block in which the gov end-blocker applies the
+// change holds a join before it and a queued swap after it.
+func c03ExtraOps(h *History, g *G) []*Op {
+	pr, ok := h.Ext["c03-params-proposal"].([2]uint64)
+	if !ok || uint64(len(h.Trace.Blocks)) > pr[1] || g.Int("c03/traffic?", 0, 3) == 0 {
+		return nil
+	}
+	pool := g.S.Pool(pr[0])
+	if pool == nil || len(pool.PoolAssets) != 2 {
+		return nil
+	}
+	var ops []*Op
+	free := func() *Account {
+		u := g.User()
+		if g.Busy[u.Addr.String()] {
+			return nil
+		}
+		g.Busy[u.Addr.String()] = true
+		return u
+	}
+	if j := free(); j != nil {
+		a := pool.PoolAssets[g.Pick("c03/joinasset", 2)].Token
+		amt := maxInt(a.Amount.QuoRaw(int64(g.Int("c03/joinfrac", 200, 100000))), sdkmath.OneInt())
+		ops = append(ops, &Op{Signer: j, Kind: "c03.join_during_proposal", Msg: &ammtypes.MsgJoinPool{Sender: j.Addr.String(), PoolId: pool.PoolId,
+			MaxAmountsIn: sdk.NewCoins(sdk.NewCoin(a.Denom, amt)), ShareAmountOut: sdkmath.OneInt()}})
+	}
+	if t := free(); t != nil {
+		i := g.Pick("c03/swapdir", 2)
+		in, out := pool.PoolAssets[i].Token, pool.PoolAssets[1-i].Token
+		amt := maxInt(in.Amount.MulRaw(int64(g.Int("c03/swappct", 1, 40))).QuoRaw(100), sdkmath.OneInt())
+		ops = append(ops, &Op{Signer: t, Kind: "c03.swap_during_proposal", Msg: &ammtypes.MsgSwapExactAmountIn{Sender: t.Addr.String(),
+			Routes: []ammtypes.SwapAmountInRoute{{PoolId: pool.PoolId, TokenOutDenom: out.Denom}}, TokenIn: sdk.NewCoin(in.Denom, amt), TokenOutMinAmount: sdkmath.OneInt(), Recipient: t.Addr.String()}})
+	}
+	if f := h.W.Feeder; !g.Busy[f.Addr.String()] && g.Bool("c03/extliq") {
+		var info []ammtypes.AssetAmountDepth
+		for _, a := range pool.PoolAssets {
+			info = append(info, ammtypes.AssetAmountDepth{Asset: displayOf(a.Token.Denom), Amount: a.Token.Amount.ToLegacyDec().MulInt64(int64(g.Int("c03/extmult", 2, 50))), Depth: sdkmath.LegacyMustNewDecFromStr("0.02")})
+		}
+		ops = append(ops, &Op{Signer: f, Kind: "c03.external_liquidity", Msg: &ammtypes.MsgFeedMultipleExternalLiquidity{Sender: f.Addr.String(),
+			Liquidity: []ammtypes.ExternalLiquidity{{PoolId: pool.PoolId, AmountDepthInfo: info}}}})
+	}
+	h.Labels["c03-traffic-during-a-parameter-proposal"]++
+	return ops
 }
 
 // chain-level part of C03: swap-dominated histories (several swaps per block against the same pools, both
 // directions and forms), few price moves, almost no perpetual exposure
 var ProfileC03 = &Profile{
 	MultiMsg: true,
-	ID:       "C03", Name: "swap-value", MinBlocks: 6, MaxBlocks: 40, MaxTxs: 6, Spec: withModestUser(withSkew(specDefault)), Check: CheckC03Chain, PreBlock: c03Gov,
+	ID:       "C03", Name: "swap-value", MinBlocks: 6, MaxBlocks: 40, MaxTxs: 6, Spec: withModestUser(withSkew(specDefault)), Check: CheckC03Chain, PreBlock: c03Gov, ExtraOps: c03ExtraOps,
 	Weights: map[string]int{"amm.swap_in": 14, "amm.swap_out": 14, "amm.swap_in_2hop": 4, "amm.swap_out_2hop": 4, "amm.swap_by_denom": 3, "amm.join": 4, "amm.exit": 4,
 		"oracle.feed_price": 2, "perpetual.open": 1, "perpetual.close": 2, "leveragelp.open": 1, "bank.send_to_pool": 1, "amm.feed_external_liquidity": 3, "tier.set_portfolio": 3},
 	Rule: "history with >=3 judged pool-blocks (only swaps/joins/exits, unchanged prices, no perpetual exposure) and >=1 block with >=2 successful swaps",
